@@ -384,7 +384,11 @@ def check_composition(ctx, case):
             for i in op[1]:  # keep the caller's order, without repeats
                 if i % len(tracks) not in sel:
                     sel.append(i % len(tracks))
-            comp.selected_tracks = list(sel)
+            # ordinary Python indices: some of them may be written from the end (-1 = the last track)
+            neg = op[2] if len(op) > 2 else 0
+            comp.selected_tracks = [i - len(tracks) if (neg >> k_) & 1 else i for k_, i in enumerate(sel)]
+            if any(x < 0 for x in comp.selected_tracks):
+                flags.add("negative-selection-index")
             if 0 < len(sel) < len(tracks):
                 flags.add("partial-selection")
         elif name in ("add_note", "plus_note"):
@@ -540,7 +544,7 @@ def _comp_st():
     notes = st.lists(st.sampled_from(MID_NOTES), min_size=1, max_size=3, unique_by=lambda x: T.pitch(x[0], x[1]))
     op = st.one_of(
         st.just(["add_track"]), st.just(["plus_track"]), st.just(["add_tight_track"]),
-        st.tuples(st.just("select"), st.lists(st.integers(0, 7), min_size=0, max_size=4)).map(list),
+        st.tuples(st.just("select"), st.lists(st.integers(0, 7), min_size=0, max_size=4), st.sampled_from([0, 0, 1, 2, 3, 15])).map(list),
         st.tuples(st.just("add_note"), form, notes).map(list),
         st.tuples(st.just("plus_note"), form, notes).map(list),
         st.tuples(st.just("add_note"), form, notes).map(list),
